@@ -11,23 +11,30 @@ NAMES = ["tb", "ta", "Tc", "t_a", "tab"]
 PARAMS = {"quick": dict(nexh=2, nrand=900), "thorough": dict(nexh=3, nrand=12000)}
 
 
-def _term_text(kind, matchlen, slen, idx):
+# the "dash" variant: texts with characters a regex must escape, in front of a character no keyword contains; with KEYWORD /\w+(-\w+)*/
+# "a", "a-a", "a-a-a" are keywords, "a-", "a-a-", "a-a-a=" are plain strings (finding D46: the scan order counted a keyword with the length
+# of its ESCAPED regex, so the keyword "a-a-a" was tried, and finished the scan, before the longer string "a-a-a=")
+INPUT_DASH = "a-a-a= a"
+KEYWORD_DASH = "\\w+(-\\w+)*"
+
+
+def _term_text(kind, matchlen, slen, idx, dash=False):
     """(grammar body, recognizer-length or None) realising the intent on INPUT at position 0"""
     other = "bcdef"[idx]
     if kind == "str":
-        text = ("a" * matchlen) if matchlen else (other * slen)
+        text = ((INPUT_DASH[:matchlen] if dash else "a" * matchlen)) if matchlen else (other * slen)
         return '"%s"' % text, None, len(text)
     if kind == "re":
-        return ("/a{%d}/" % matchlen) if matchlen else "/%s+/" % other, None, 0
+        return (("/[a=-]{%d}/" if dash else "/a{%d}/") % matchlen) if matchlen else "/%s+/" % other, None, 0
     return "", matchlen, 0  # custom
 
 
-def config_text(cfg):
+def config_text(cfg, dash=False):
     """cfg: list of dicts {kind, mlen, slen, prior, prefer, mark}; returns (grammar text, recognizer lengths, intended slen per terminal)"""
     lines, recs, slens = [], {}, {}
     names = NAMES[: len(cfg)]
     for i, (name, c) in enumerate(zip(names, cfg)):
-        body, rl, sl = _term_text(c["kind"], c["mlen"], c["slen"], i)
+        body, rl, sl = _term_text(c["kind"], c["mlen"], c["slen"], i, dash)
         meta = [str(c["prior"])] if c["prior"] != 10 else []
         if c["prefer"]:
             meta.append("prefer")
@@ -78,18 +85,36 @@ def _configs(tier, seed):
         out.append({"cfg": cfg, "kw": r.random() < 0.3, "ic": r.random() < 0.15, "origin": "det" if k % 2 == 0 else "rand"})
     # every configuration is also scanned in a state that expects STOP as well (every other exhaustive one, all random ones)
     out += [dict(c, stop=True) for i, c in enumerate(out) if i % 2 == 0 or len(c["cfg"]) > 2]
+    # the dash variant (keywords whose regex is longer than their text next to plain strings): all pairs of string terminals over the six
+    # prefixes of INPUT_DASH with a third terminal of any kind, and a seeded sample of larger sets
+    per = [dict(kind="str", mlen=m, slen=m, prior=10, prefer=False, mark="none") for m in range(1, 7)]
+    third = [None, dict(kind="re", mlen=2, slen=0, prior=10, prefer=False, mark="none"), dict(kind="re", mlen=6, slen=0, prior=10, prefer=False, mark="none"),
+             dict(kind="custom", mlen=4, slen=0, prior=10, prefer=False, mark="none"), dict(kind="str", mlen=3, slen=3, prior=15, prefer=False, mark="none")]
+    for a, b in itertools.combinations(per, 2):
+        for c in third:
+            if c is not None and c["kind"] == "str" and c["mlen"] in (a["mlen"], b["mlen"]):
+                continue
+            out.append({"cfg": [dict(x) for x in (a, b, c) if x is not None], "kw": True, "ic": False, "origin": "det", "dash": True})
+    rng3 = random.Random(6000011 * (seed + 1))
+    for k in range(p["nrand"] // 10):
+        ms = rng3.sample(range(1, 7), rng3.randint(2, 4))
+        cfg = [dict(kind=rng3.choice(["str", "str", "str", "re", "custom"]), mlen=m, slen=m, prior=rng3.choice([10, 10, 10, 5, 15]),
+                    prefer=rng3.random() < 0.25, mark=rng3.choice(["none"] * 5 + ["finish", "nofinish"])) for m in ms]
+        out.append({"cfg": cfg, "kw": rng3.random() < 0.8, "ic": False, "origin": "rand", "dash": True, "stop": rng3.random() < 0.3})
     return out
 
 
 def worker(job):
     from . import real
 
-    text, recs, slens = config_text(job["cfg"])
+    dash = bool(job.get("dash"))
+    text, recs, slens = config_text(job["cfg"], dash)
     stop = bool(job.get("stop"))
     if stop:
         text = with_stop_state(text)
     if job["kw"]:
-        text += "KEYWORD: /\\w+/;\n"
+        text += "KEYWORD: /%s/;\n" % (KEYWORD_DASH if dash else "\\w+")
+    INPUT = INPUT_DASH if dash else globals()["INPUT"]
     if job["ic"]:
         text = text.replace('"a', '"A')
     recognizers = {n: (lambda ln: (lambda inp, pos: inp[pos:pos + ln] if ln else None))(ln) for n, ln in recs.items()}
